@@ -381,7 +381,7 @@ func genRef(r *Rand, baseScheme string) string {
 var basePool = []string{"http://example.org/foo/bar", "http://u:p@h:8080/a/b/c?q=1#f", "https://h/", "https://h", "http://h/a/b/../c/./d?x#y", "ws://h:81/p", "ftp://h/a/b",
 	"file:///C:/a/b", "file:///C|/a", "file:///c:", "file:///c:/", "file://h/C:/x", "file://h/x/y", "file:///", "file:///x/y?q#f", "file:", "file://localhost/x", "file:///C:", "file:/C:/d/e", "file:///a/C:/b",
 	"sc://h/p/q", "sc://u@h:1/p?q#f", "sc:/p/q", "sc:///p", "sc://", "sc:/", "sc:/.//p", "a+b://h", "sc://h", "sc://h?q", "sc:/p?q#f",
-	"sc:opaque", "mailto:a@b", "sc:opaque?q#f", "data:text/plain,x ", "sc:", "javascript:alert(1) #f",
+	"sc:opaque", "mailto:a@b", "sc:opaque?q#f", "data:text/plain,x ", "sc:", "javascript:alert(1) #f", "sc:   #f", "data:  ?q#f", "sc: ?q", "sc:x  ?#",
 	"http://1.2.3.4/x", "http://[::1]:8/x", "http://h/a%2fb/c", "http://h/a/b/", "http://h//", "http://h/a//b", "http://h/?", "http://h/#", "http://h/?#", "https://h:443/x", "http://h/a/b?c/d#e/f"}
 
 func genBase(r *Rand) string {
